@@ -8,12 +8,18 @@
 //        put <v> | take | drain | size            (bq)
 //        put <v> | take | size | empty | full | capacity   (bbq)
 //        wait | countDown | getCount              (latch)
-//        run <id> | stop                          (pool)
+//        run <id> | stop | open                   (pool; `open` opens the gate, see below)
+//   waits <ids…> / opens <ids…>                   (pool) tasks with these ids wait inside task() until the gate is open /
+//                                                 open the gate; the gate is closed at first and stays open once opened
+//                                                 (a pool without threads ignores the kinds: its tasks are plain)
 //   schedule <ints…>                              run the case (in a forked child) and print its events
-// Event lines: `T<i> <op> -> <result>`, `T<j> exec <id>`, then `done` or `blocked T0:… T1:…`.
+// Event lines: `T<i> <op> -> <result>`, `T<j> exec <id>`, `T<j> pass <id>` (a waiting task got through the gate), then
+// `done` or `blocked T0:… T1:…` (a worker inside a waiting task is in state `poll`: the gate is a pipe).
 // Oracle-only lines: `# call T<i> <op>` (before the op), `# stopflag T<i>` (stop() has cleared the flag; printed at
 // the first notify/unlock after stop() locked the mutex),
-// `# dec <decisions>`, `# final <n>`.
+// `# dec <decisions>`, `# final <n>`, and for a pool at every release of its mutex (unlock, or entering a wait)
+// `# mon q=<queue_.size()> run=<running_> neW=<k> neS=<k> nfW=<k> nfS=<k>`: the monitor's state as the scheduler
+// sees it (W = waiters not yet notified, S = notified waiters that have not re-acquired the mutex yet).
 // Thread numbering = detsched index: T0 main; pool workers T1..T<threads>, program thread k after them.
 #include <assert.h>
 #include <ctype.h>
@@ -58,7 +64,7 @@
 namespace {
 
 enum Kind { K_NONE, K_BQ, K_BBQ, K_LATCH, K_POOL };
-enum OpCode { O_PUT, O_TAKE, O_DRAIN, O_SIZE, O_EMPTY, O_FULL, O_CAPACITY, O_WAIT, O_COUNTDOWN, O_GETCOUNT, O_RUN, O_STOP };
+enum OpCode { O_PUT, O_TAKE, O_DRAIN, O_SIZE, O_EMPTY, O_FULL, O_CAPACITY, O_WAIT, O_COUNTDOWN, O_GETCOUNT, O_RUN, O_STOP, O_OPEN };
 struct Op { OpCode code; int arg; };
 
 struct CaseDef {
@@ -66,6 +72,7 @@ struct CaseDef {
   int a, b;                 // bbq: cap; latch: n; pool: threads, max
   bool spurious;
   std::vector<std::vector<Op> > threads;
+  std::vector<int> waits, opens;   // pool: ids of the tasks that wait for the gate / open it
   CaseDef() : kind(K_NONE), a(0), b(0), spurious(false) {}
 };
 
@@ -77,13 +84,14 @@ muduo::BoundedBlockingQueue<int>* g_bbq;
 muduo::CountDownLatch* g_latch;
 muduo::ThreadPool* g_pool;
 const CaseDef* g_case;
+int g_gate[2] = { -1, -1 };   // pool: the gate (a pipe: readable = open)
 
 const char* opName(OpCode c) {
   switch (c) {
     case O_PUT: return "put"; case O_TAKE: return "take"; case O_DRAIN: return "drain"; case O_SIZE: return "size";
     case O_EMPTY: return "empty"; case O_FULL: return "full"; case O_CAPACITY: return "capacity";
     case O_WAIT: return "wait"; case O_COUNTDOWN: return "countDown"; case O_GETCOUNT: return "getCount";
-    case O_RUN: return "run"; case O_STOP: return "stop";
+    case O_RUN: return "run"; case O_STOP: return "stop"; case O_OPEN: return "open";
   }
   return "?";
 }
@@ -103,13 +111,13 @@ bool opAllowed(Kind k, OpCode c) {
     case K_BQ: return c == O_PUT || c == O_TAKE || c == O_DRAIN || c == O_SIZE;
     case K_BBQ: return c == O_PUT || c == O_TAKE || c == O_SIZE || c == O_EMPTY || c == O_FULL || c == O_CAPACITY;
     case K_LATCH: return c == O_WAIT || c == O_COUNTDOWN || c == O_GETCOUNT;
-    case K_POOL: return c == O_RUN || c == O_STOP;
+    case K_POOL: return c == O_RUN || c == O_STOP || c == O_OPEN;
     default: return false;
   }
 }
 
 bool parseOps(Kind kind, const std::vector<std::string>& w, size_t from, std::vector<Op>* out) {
-  static const OpCode all[] = { O_PUT, O_TAKE, O_DRAIN, O_SIZE, O_EMPTY, O_FULL, O_CAPACITY, O_WAIT, O_COUNTDOWN, O_GETCOUNT, O_RUN, O_STOP };
+  static const OpCode all[] = { O_PUT, O_TAKE, O_DRAIN, O_SIZE, O_EMPTY, O_FULL, O_CAPACITY, O_WAIT, O_COUNTDOWN, O_GETCOUNT, O_RUN, O_STOP, O_OPEN };
   for (size_t i = from; i < w.size(); ++i) {
     bool found = false;
     for (size_t j = 0; j < sizeof all / sizeof *all; ++j) {
@@ -130,7 +138,32 @@ bool parseOps(Kind kind, const std::vector<std::string>& w, size_t from, std::ve
   return true;
 }
 
-void taskBody(int id) { printf("T%d exec %d\n", ds::self(), id); }
+bool hasId(const std::vector<int>& v, int id) {
+  for (size_t i = 0; i < v.size(); ++i) if (v[i] == id) return true;
+  return false;
+}
+
+void openGate() {
+  char x = 'x';
+  if (write(g_gate[1], &x, 1) != 1) { printf("<<gate write failed>>\n"); fflush(stdout); _exit(0); }
+}
+
+// the task handed to ThreadPool::run(): plain, or (pools with threads only) waiting for / opening the gate.
+// Waiting = poll() on the gate's read end without a time-out: a yield point of the scheduler, enabled once the
+// gate has been opened (nothing is ever read from the pipe: an open gate stays open).
+void taskBody(int id) {
+  int me = ds::self();
+  printf("T%d exec %d\n", me, id);
+  if (g_case->a == 0) return;
+  if (hasId(g_case->waits, id)) {
+    struct pollfd p;
+    p.fd = g_gate[0]; p.events = POLLIN; p.revents = 0;
+    poll(&p, 1, -1);
+    printf("T%d pass %d\n", me, id);
+  } else if (hasId(g_case->opens, id)) {
+    openGate();
+  }
+}
 
 void* programThread(void* p) {
   const std::vector<Op>& ops = *static_cast<const std::vector<Op>*>(p);
@@ -138,7 +171,7 @@ void* programThread(void* p) {
   for (size_t i = 0; i < ops.size(); ++i) {
     const Op& op = ops[i];
     ds::label(opName(op.code));
-    if (op.code == O_RUN && c.kind == K_POOL && c.a == 0) ds::yield("op");   // inline run takes no lock at all
+    if ((op.code == O_RUN && c.kind == K_POOL && c.a == 0) || op.code == O_OPEN) ds::yield("op");   // inline run / open take no lock at all
     int me = ds::self();
     if (hasArg(op.code)) printf("# call T%d %s %d\n", me, opName(op.code), op.arg);
     else printf("# call T%d %s\n", me, opName(op.code));
@@ -179,6 +212,7 @@ void* programThread(void* p) {
       case O_GETCOUNT: printf("T%d getCount -> %d\n", me, g_latch->getCount()); break;
       case O_RUN: g_pool->run(std::bind(&taskBody, op.arg)); printf("T%d run %d -> ok\n", me, op.arg); break;
       case O_STOP: g_pool->stop(); printf("T%d stop -> ok\n", me); break;
+      case O_OPEN: openGate(); printf("T%d open -> ok\n", me); break;
     }
   }
   return 0;
@@ -213,6 +247,21 @@ bool onlySpuriousLeft() {
 // as the store, and without relying on any particular notification being there.
 bool g_stopPending[kMaxThreads * 2 + 2];
 
+// `# mon`: what the pool's monitor looks like at the moment its mutex is released
+void printMon() {
+  const void* ce = &g_pool->notEmpty_.pcond_;
+  const void* cf = &g_pool->notFull_.pcond_;
+  int neS = 0, nfS = 0;
+  ds::G& s = ds::g();
+  for (size_t i = 0; i < s.thr.size(); ++i) {
+    if (s.thr[i]->st != ds::ST_SIG) continue;
+    if (s.thr[i]->obj == ce) ++neS;
+    if (s.thr[i]->obj == cf) ++nfS;
+  }
+  printf("# mon q=%d run=%d neW=%d neS=%d nfW=%d nfS=%d\n", static_cast<int>(g_pool->queue_.size()), g_pool->running_ ? 1 : 0,
+         static_cast<int>(ds::cndOf(ce).waiters.size()), neS, static_cast<int>(ds::cndOf(cf).waiters.size()), nfS);
+}
+
 void observer(const ds::Ev& e) {
   if (g_case->kind == K_POOL && e.thread >= 0 && e.thread < static_cast<int>(sizeof g_stopPending / sizeof *g_stopPending)) {
     ds::Thr* t = ds::g().thr[static_cast<size_t>(e.thread)];
@@ -222,6 +271,9 @@ void observer(const ds::Ev& e) {
       g_stopPending[e.thread] = false;
       printf("# stopflag T%d\n", e.thread);
     }
+    if (e.thread > 0 && ((e.kind == ds::EV_UNLOCK && e.obj == g_pool->mutex_.getPthreadMutex()) ||
+                         (e.kind == ds::EV_WAIT && (e.obj == &g_pool->notEmpty_.pcond_ || e.obj == &g_pool->notFull_.pcond_))))
+      printMon();
   }
   if ((e.kind == ds::EV_WAIT || e.kind == ds::EV_EXIT) && ds::cfg().spurious && onlySpuriousLeft()) ds::reportBlocked();
 }
@@ -256,6 +308,7 @@ void runChild(const CaseDef& c, const std::vector<int>& sched) {
       ds::name(&g_pool->notEmpty_.pcond_, "notEmpty");
       ds::name(&g_pool->notFull_.pcond_, "notFull");
       g_pool->setMaxQueueSize(c.b);
+      if (pipe(g_gate) != 0) { printf("<<pipe failed>>\n"); fflush(stdout); _exit(0); }
       g_pool->start(c.a);
       break;
     default: break;
@@ -311,6 +364,15 @@ int main() {
       cur = ok ? c : CaseDef();
     } else if (w[0] == "spurious") {
       if (w.size() == 1 && cur.kind != K_NONE) { cur.spurious = true; ok = true; }
+    } else if (w[0] == "waits" || w[0] == "opens") {
+      ok = cur.kind == K_POOL;
+      std::vector<int>& dst = (w[0] == "waits") ? cur.waits : cur.opens;
+      std::vector<int> ids;
+      for (size_t i = 1; ok && i < w.size(); ++i) {
+        int v = 0;
+        if (parseInt(w[i], 0, 999999999, &v)) ids.push_back(v); else ok = false;
+      }
+      if (ok) dst.insert(dst.end(), ids.begin(), ids.end());
     } else if (w[0] == "thread") {
       int k = 0;
       if (cur.kind != K_NONE && w.size() >= 2 && w[1].size() >= 2 && w[1][w[1].size() - 1] == ':' &&
